@@ -168,7 +168,7 @@ pub fn check_case(c: &Case) -> Check {
                     .parse::<u128>()
                     .map_err(|_| v("HARNESS: digits".into()))? as i128;
                 let text = format!("{} {} {}", list_text(ops, &uni, &names, digits.len() % 2 == 0), op, digits);
-                let (r, _pf) = front::eval_text(&text, None).map_err(|e| v(format!("`{}` rejected: {}", text, e)))?;
+                let (r, _pf) = front::eval_text(&text, None).map_err(|e| front::rejection(&text, &format!("`{}`", text), &e, &cj))?;
                 let tabs: Vec<TT> = ops.iter().map(|f| f.over(&uni)).collect();
                 let want = TT::count_cmp(k, &tabs, |cnt| cmp_by(op, cnt, n));
                 let got = front::table_by_name(&r, &names).map_err(|e| v(e))?;
